@@ -2,7 +2,7 @@
 import json
 from vlib import core
 from harness import k_translator, k_semeq, gen, implrun
-from oracles import o_main
+from oracles import o_main, o_float
 
 
 def kw_for(ctx, hermitian=True, **over):
@@ -27,6 +27,10 @@ def run(ctx, vfiles, props, hermitian=True, classify=None, extra=None, ncases=No
     n = ncases or ctx.n(36, 700)
     kw = kw_for(ctx, hermitian)
     ctx.oracle("o_main[%s]" % ",".join(props), o_main.sweep, n, props, kw)
+    fprops = {"similarity": ["kept", "eliminated"], "unitary": ["UdU", "UUd", "adjoint", "Ht_herm"], "gauge": ["gauge"]}
+    want = [x for p_ in props for x in fprops.get(p_, [])]
+    if want:
+        ctx.oracle("o_float", o_float.oracle_float, hermitian, None, want)
 
     def search(c):
         r = o_main.sweep(c, 400, props, kw_for(c, hermitian, N=3), parallel=True)
@@ -42,6 +46,8 @@ def replay(rp, props):
     if not case:
         print("replay file names no failing input:", rp.get("no_longer_checks"))
         return 2
+    if "sizes" in case:
+        return o_float.replay(case)
     fails = o_main.check_case(case, props)
     for x in fails[:5]:
         print("still fails:", x["what"])
